@@ -247,7 +247,7 @@ def repr_after_failure(ctx):
 def run_shard(ctx):
     if ctx.shard == 0:
         repr_after_failure(ctx)
-    preds = ['none', 'is_tuple', 'custom', 'leafbox']
+    preds = ['none', 'tuple_or_none', 'custom', 'leafbox']
     e1.drive(ctx, ctx.tier, lambda tree, leaves, dsl, cfg: check(ctx, tree, leaves, dsl, cfg),
              profile='tiny' if ctx.tier == 'quick' else 'full', cfgs=e1.configs(ctx.tier, predicates=preds))
 
